@@ -20,6 +20,10 @@ pub enum FsInfoKind {
     HintLast,
     /// the hint names the (in-use) cluster right after the highest free one: nothing is free from the hint upwards
     HintAfterLastFree,
+    /// a count just below the "unknown" mark: 0xFFFFFFFE - k
+    CountNearMax(u8),
+    /// count 0 (stale) together with an unknown hint (0xFFFFFFFF, 0 or 1)
+    ZeroUnknownHint(u8),
 }
 
 #[derive(Serialize, Deserialize, Clone, Debug, PartialEq)]
@@ -61,6 +65,12 @@ pub struct TreeSpec {
     /// only with all ones
     #[serde(default)]
     pub eoc_variants: bool,
+    /// some files own one to three clusters more than their size needs
+    #[serde(default)]
+    pub overalloc: bool,
+    /// the root's volume-label entry has the same eleven name bytes as the first file behind it
+    #[serde(default)]
+    pub label_twin: bool,
 }
 
 #[derive(Serialize, Deserialize, Clone, Debug, PartialEq)]
@@ -155,7 +165,7 @@ impl VolSpec {
             fsinfo: FsInfoKind::Correct,
             label: false,
             ext_flags: 0,
-            tree: TreeSpec { seed: 1, dirs: 0, files: 0, depth: 0, max_clusters: 1, lfn: false, deleted: false, vol_label: false, fragment: false, free: None, free_high: false, free_last: false, bad: 0, high_nibble: false, latin1: false, big_dirs: false, full_dirs: None, dir_attrs: false, alloc_top: false, ea_handles: false, eoc_variants: false },
+            tree: TreeSpec { seed: 1, dirs: 0, files: 0, depth: 0, max_clusters: 1, lfn: false, deleted: false, vol_label: false, fragment: false, free: None, free_high: false, free_last: false, bad: 0, high_nibble: false, latin1: false, big_dirs: false, full_dirs: None, dir_attrs: false, alloc_top: false, ea_handles: false, eoc_variants: false, overalloc: false, label_twin: false },
         }
     }
 }
@@ -462,6 +472,8 @@ impl<'a> Builder<'a> {
                 let want = (size + cb - 1) / cb;
                 // zero-length file that still owns a cluster, sometimes
                 let want = if size == 0 && self.rng.chance(1, 3) { 1 } else { want };
+                // pre-allocated space behind the data (what fallocate with KEEP_SIZE leaves on vfat): legal, the size rules
+                let want = if self.spec.overalloc && want > 0 && crate::rng::fnv(&[&self.spec.seed.to_le_bytes()[..], &name[..]].concat()) % 3 == 0 { want + 1 + (size % 3) } else { want };
                 let ch = self.al.chain(&mut self.rng, want, self.spec.fragment);
                 let size = size.min(ch.len() as u32 * cb);
                 let seed = self.rng.next_u64();
@@ -504,6 +516,18 @@ impl<'a> Builder<'a> {
             let units = [0x0050u16, 0x0041, 0x0044, 0, 0xFFFF, 0xFFFF, 0xFFFF, 0xFFFF, 0xFFFF, 0xFFFF, 0xFFFF, 0xFFFF, 0xFFFF];
             while slots.len() + (k as usize) < total {
                 slots.push(lfn_slot_raw(0x41, fatspec::sfn_checksum(&pad).wrapping_add(1), &units));
+            }
+        }
+        if is_root && self.spec.vol_label && self.spec.label_twin {
+            // the volume-label entry carries the same eleven name bytes as the first file behind it
+            if let Some(n) = slots.iter().skip(1).find(|s| s[0] != 0 && s[0] != 0xE5 && s[11] & 0x18 == 0 && s[11] & 0x0F != 0x0F).map(|s| {
+                let mut n = [0u8; 11];
+                n.copy_from_slice(&s[..11]);
+                n
+            }) {
+                if slots[0][11] == 0x08 {
+                    slots[0][..11].copy_from_slice(&n);
+                }
             }
         }
         // write the directory
@@ -842,6 +866,8 @@ pub fn format_volume(img: &mut Image, v: &VolSpec) -> VolOut {
             FsInfoKind::HintOut => (free_now, n + 1000),
             FsInfoKind::HintUsed => (free_now, used_cluster),
             FsInfoKind::HintLast => (free_now, n - 1),
+            FsInfoKind::CountNearMax(k) => (0xFFFF_FFFE - k as u32, first_free),
+            FsInfoKind::ZeroUnknownHint(k) => (0, [0xFFFF_FFFFu32, 0, 1][(k % 3) as usize]),
             FsInfoKind::HintAfterLastFree => {
                 let last_free = (2..n).rev().find(|&c| bld.al.is_free(c));
                 (free_now, last_free.map_or(used_cluster, |c| (c + 1).min(n - 1)))
@@ -1041,7 +1067,13 @@ pub fn gen_volspec(rng: &mut Rng, bias: Bias, lba: u32, slot: u8) -> VolSpec {
             (Bias::Info, 4) => FsInfoKind::HintOut,
             (Bias::Info, 5) => FsInfoKind::HintUsed,
             (Bias::Info, 6) => FsInfoKind::HintLast,
-            (Bias::Info, 7) | (Bias::Space, 7) => FsInfoKind::HintAfterLastFree,
+            (Bias::Info, 7) | (Bias::Space, 7) => {
+                match rng.below(3) {
+                    0 => FsInfoKind::HintAfterLastFree,
+                    1 => FsInfoKind::CountNearMax(rng.below(4) as u8),
+                    _ => FsInfoKind::ZeroUnknownHint(rng.below(3) as u8),
+                }
+            }
             (_, 9) => FsInfoKind::Unknown,
             (_, 8) => FsInfoKind::HintUsed,
             _ => FsInfoKind::Correct,
@@ -1100,6 +1132,10 @@ pub fn gen_volspec(rng: &mut Rng, bias: Bias, lba: u32, slot: u8) -> VolSpec {
             alloc_top: rng.chance(1, 4),
             ea_handles: !fat32 && rng.chance(1, 4),
             eoc_variants: rng.chance(1, 3),
+            overalloc: rng.chance(1, 4),
+            // (not generated: by C06 a name resolves to whatever entry the listing shows first, the label included, so a
+            // file behind a label of the same name is unreachable by design; see DESIGN 16)
+            label_twin: false,
         },
     }
 }
